@@ -371,6 +371,12 @@ class Path:
         # over-approximation of feasibility: sound, extra paths are discharged vacuously)
         if not heavy(c):
             self.solver.add(c)
+        elif z3.is_and(c):
+            # the cheap conjuncts of a mixed conjunction (e.g. the bounds in a loop invariant that also talks about
+            # strings) still inform the feasibility solver
+            for ch in c.children():
+                if not heavy(ch):
+                    self.solver.add(ch)
 
     def assume_prepared(self, prepared):
         """prepared: [(simplified term, is_heavy)] computed once (merged-call summaries)"""
@@ -386,15 +392,30 @@ class Path:
         if light:
             self.solver.add(*light)
 
+    prune_ms = 0       # > 0: branches are also checked against the WHOLE path condition (strings included) with this budget
+
     def feasible(self, c):
         if heavy(c):
-            return True
+            return self.feasible_full(c) if self.prune_ms else True
         self.solver.push()
         self.solver.add(c)
         self.n_solver_calls += 1
         r = self.solver.check()
         self.solver.pop()
+        if r != z3.unsat and self.prune_ms and len(self.pc) > len(self.solver.assertions()):
+            return self.feasible_full(c)
         return r != z3.unsat
+
+    def feasible_full(self, c):
+        """pruning only: `unsat` within the budget drops the branch, anything else keeps it (sound: an infeasible
+        branch that is kept is discharged vacuously)"""
+        s = z3.Solver()
+        s.set("timeout", self.prune_ms)
+        for a in self.pc:
+            s.add(a)
+        s.add(c)
+        self.n_solver_calls += 1
+        return s.check() != z3.unsat
 
     def fork(self, cond):
         cond = simp(cond)
